@@ -448,7 +448,11 @@ func (g *gctx) expr(T Type, needDyn bool) (*Expr, bool) {
 // rhs builds the right-hand side of an assignment: dynamic, or (outside loops)
 // occasionally a bare literal.
 func (g *gctx) rhs(T Type) (*Expr, bool) {
-	if T.IsInt() && g.chance(22, "common") {
+	commonPct := 22
+	if g.ifDepth%100 > 0 {
+		commonPct = 40
+	}
+	if T.IsInt() && g.chance(commonPct, "common") {
 		// Values that recur: the same small literal or the same
 		// variable assigned on several paths (merges of equal values).
 		if len(g.loops) == 0 && T.N >= 2 && g.chance(50, "commonlit") {
@@ -515,6 +519,12 @@ func (g *gctx) stmt() (*Stmt, bool) {
 		return g.aliasIdiom(), false
 	}
 	k := g.intn(0, 99, "stmt")
+	if g.ifDepth%100 > 0 && g.chance(60, "branchprofile") {
+		// Inside a branch: mostly assignments to variables of the
+		// enclosing scopes and further (nested) branches, the shapes
+		// that produce phis of phis.
+		k = []int{30, 35, 40, 45, 47, 50, 57, 72, 75, 80, 83}[g.intn(0, 10, "branchstmt")]
+	}
 	switch {
 	case k < 14: // var declaration
 		T := g.scalarType()
@@ -784,7 +794,7 @@ func (g *gctx) ifStmt() (*Stmt, bool) {
 	}
 	g.scopes = cloneScopes(pre)
 	elseTerm := false
-	switch g.intn(0, 3, "elsekind") {
+	switch g.intn(0, 4, "elsekind") {
 	case 0: // no else
 	case 1: // else if
 		if g.ifDepth%100 < 3 && g.budget > 0 {
@@ -794,6 +804,20 @@ func (g *gctx) ifStmt() (*Stmt, bool) {
 			s.Else = []*Stmt{inner}
 			elseTerm = t
 		}
+	case 2:
+		// Mirrored arms: the else arm repeats the assignments of the
+		// then arm under fresh inner conditions (both arms bind the
+		// same variables to the same values through different phis).
+		if !term {
+			if els := g.mirror(then, declared(then)); len(els) > 0 {
+				s.Else = els
+				// Same assignments: the same variables are
+				// (non-)constant as on the then path.
+				g.scopes = cloneScopes(surviving[0])
+				break
+			}
+		}
+		fallthrough
 	default:
 		els, t := g.block(g.intn(1, 3, "elselen"), allowReturn)
 		s.Else = els
@@ -820,6 +844,74 @@ func (g *gctx) ifStmt() (*Stmt, bool) {
 	}
 	g.scopes = merged
 	return s, false
+}
+
+// declared collects the names declared by a statement list (recursively).
+func declared(list []*Stmt) map[string]bool {
+	res := map[string]bool{}
+	var walk func(l []*Stmt)
+	walk = func(l []*Stmt) {
+		for _, s := range l {
+			switch s.K {
+			case SVar, SDefine:
+				res[s.Name] = true
+			case SCall:
+				for _, n := range s.Names {
+					res[n] = true
+				}
+			case SFor:
+				res[s.Var] = true
+			}
+			walk(s.Then)
+			walk(s.Else)
+			walk(s.Body)
+		}
+	}
+	walk(list)
+	return res
+}
+
+func exprRefs(e *Expr, names map[string]bool) bool {
+	if e == nil {
+		return false
+	}
+	if (e.Op == EVar || e.Op == ELoopVar) && names[e.Name] {
+		return true
+	}
+	if e.Op == EIndex && e.Name != "" && names[e.Name] {
+		return true
+	}
+	for _, a := range e.A {
+		if exprRefs(a, names) {
+			return true
+		}
+	}
+	return false
+}
+
+// mirror copies the assignments of a statement list, dropping declarations and
+// everything that refers to names declared in the original, and replaces the
+// conditions of nested ifs by fresh ones.
+func (g *gctx) mirror(list []*Stmt, local map[string]bool) []*Stmt {
+	var res []*Stmt
+	for _, s := range list {
+		switch s.K {
+		case SAssign, SOpAssign, SSetIndex, SSetField:
+			if local[s.Name] || exprRefs(s.E, local) || (s.LoopIdx != "" && local[s.LoopIdx]) {
+				continue
+			}
+			cp := *s
+			res = append(res, &cp)
+		case SIf:
+			inner := g.mirror(s.Then, local)
+			if len(inner) == 0 {
+				continue
+			}
+			cond, _ := g.boolExpr(g.intn(0, g.o.MaxDepth, "mirrorcond"), true)
+			res = append(res, &Stmt{K: SIf, E: cond, Then: inner, Else: g.mirror(s.Else, local)})
+		}
+	}
+	return res
 }
 
 // returnable tells whether a return statement can be generated here (array
